@@ -154,6 +154,17 @@ pub fn k_history<T: Real>(case: &Case) -> Outcome {
         .label(format!("history length:{}", reqs.len()))
 }
 
+/// Put the calling thread's SSE control/status register back to the process start-up default (round to nearest,
+/// all exceptions masked, no flush-to-zero / denormals-are-zero). New threads inherit the creating thread's
+/// floating-point environment on Linux, so without this a "fresh" thread is only as fresh as its parent.
+fn pristine_fp_env() {
+    #[cfg(target_arch = "x86_64")]
+    unsafe {
+        let v: u32 = 0x1F80;
+        std::arch::asm!("ldmxcsr [{}]", in(reg) &v, options(nostack, readonly));
+    }
+}
+
 // ---------------------------------------------------------------------------------------------
 // kind "threads" (C11): p[0] = threads, p[1] = rounds
 
@@ -189,7 +200,11 @@ pub fn k_threads<T: Real>(case: &Case) -> Outcome {
         let f = Arc::clone(&fft);
         let v2 = v.clone();
         let e2 = *e;
-        let r = std::thread::spawn(move || transform(&*f, e2, &v2)).join();
+        let r = std::thread::spawn(move || {
+            pristine_fp_env();
+            transform(&*f, e2, &v2)
+        })
+        .join();
         match r {
             Ok(Ok(o)) => reference.push(o),
             Ok(Err(p)) => return Outcome::bad(format!("well-shaped call panicked: {} @ {}", p.msg, p.loc)),
@@ -197,6 +212,7 @@ pub fn k_threads<T: Real>(case: &Case) -> Outcome {
         }
     }
     // call-history determinism on one thread: interleave all items twice
+    pristine_fp_env();
     for round in 0..2 {
         for (i, (v, e, _)) in items.iter().enumerate() {
             match transform(&*fft, *e, v) {
@@ -231,6 +247,7 @@ pub fn k_threads<T: Real>(case: &Case) -> Outcome {
             s.spawn(move || {
                 let mut st = crate::gen::Stream(seed);
                 let mut scratch: Vec<Complex<T>> = vec![];
+                pristine_fp_env();
                 barrier.wait();
                 overlapped.fetch_add(1, std::sync::atomic::Ordering::Relaxed);
                 for round in 0..rounds {
